@@ -390,4 +390,9 @@ EXPLANATION = (
     'test dominates every send and wait; wait = min(next, last) - now; completeness criterion. Listener removal on all exits: '
     'C17.LISTENER; QU-then-QM and omitted questions: C13.QUFIRST / C13.CONST. Not decided: arrival-time behaviour [X].'
 )
+EXPLANATION_ADDENDUM = (
+    ' C18.BOUND also requires no suspension between reading the cache and subscribing, and the clock to be read after the last suspension; C18.MATCH that an SRV moving the instance to another host replaces both address lists. C18.ASK (decided): a QU question is asked whatever the duplicate-question history holds.'
+)
+EXPLANATION = EXPLANATION + EXPLANATION_ADDENDUM
+
 RULES = [expiry, match, bound, ask]
